@@ -187,8 +187,43 @@ const CHARS: [char; 40] = [
     '/', '*', '$', '@', '#', ':', '%', 'é', 'É', 'ß', 'İ', '漢', '😀', '\u{301}', '\u{a0}',
 ];
 
+/// One representative (or a few) of many Unicode general categories: the quoting decision
+/// ("may this identifier be written bare?") must agree with what the SQL tokenizer accepts in a
+/// bare identifier for *every* character class, not only ASCII.
+const UNICODE_CLASSES: [char; 44] = [
+    '\u{0663}', '\u{ff10}', '\u{09e9}', // Nd: arabic-indic three, fullwidth zero, bengali three
+    '\u{b2}', '\u{b3}', '\u{bd}', '\u{2460}', '\u{2074}', // No: superscripts, one half, circled one
+    '\u{2167}', '\u{3007}', // Nl: roman numeral eight, ideographic zero
+    '\u{f1}', '\u{436}', '\u{1c6}', '\u{b5}', '\u{17f}', // Ll
+    '\u{416}', '\u{1c4}', '\u{130}', // Lu
+    '\u{1c5}', // Lt
+    '\u{2b0}', // Lm
+    '\u{5d0}', '\u{6f22}', '\u{e01}', // Lo
+    '\u{301}', '\u{93f}', // Mn, Mc
+    '\u{203f}', '\u{ff3f}', // Pc (connector punctuation)
+    '\u{2010}', '\u{2014}', // Pd
+    '\u{20ac}', '\u{b1}', '\u{a9}', // Sc, Sm, So
+    '\u{a0}', '\u{3000}', '\u{2003}', // Zs
+    '\u{200d}', '\u{feff}', '\u{ad}', // Cf
+    '\u{1f600}', '\u{1d7d8}', // astral: emoji, mathematical double-struck zero (Nd)
+    '\u{2028}', '\u{85}', '\u{7f}', '\u{1}', // separators / controls
+];
+
 fn random_ident(rng: &mut Rng) -> String {
-    match rng.below(10) {
+    match rng.below(12) {
+        10 | 11 => {
+            // plain lower-case identifier with one character of a chosen Unicode class at a chosen position
+            let n = 1 + rng.usize(6);
+            let mut v: Vec<char> = (0..n).map(|i| if i > 0 && rng.chance(1, 5) { (b'0' + rng.below(10) as u8) as char } else if rng.chance(1, 8) { '_' } else { (b'a' + rng.below(26) as u8) as char }).collect();
+            let c = *rng.pick(&UNICODE_CLASSES);
+            let pos = match rng.below(3) {
+                0 => 0,
+                1 => v.len(),
+                _ => rng.usize(v.len() + 1),
+            };
+            v.insert(pos, c);
+            v.into_iter().collect()
+        }
         0 | 1 => rng.pick(&WORDS).to_string(),
         2 => {
             // keyword decorated with a special character
